@@ -21,7 +21,7 @@ RULE = (
 )
 ASSUMPTIONS = [
     "thread schedules are sampled, not owned: decided is 'the result does not depend on the parallel flag' on every generated input",
-    "axisymmetric value-type integrands carry a zero circumferential component (v_theta = 0 is the only defined test space); "
+    "the third component of an axisymmetric value space is read as felupe does: it acts on v_r / R (zero in half of the cases); "
     "value-trial / gradient-test and full mode-3 layouts on axisymmetric containers raise in felupe and are not generated",
     "weak forms contract scalar (dual) bases with dot(a, b, mode=(1, 1))",
 ]
@@ -158,7 +158,11 @@ def check(ax, case, rec):
         gv = f in ("Lg", "Bgv", "Bgg")
         gu = f in ("Bvg", "Bgg")
         tv = tshape(v0, gv, d3, mdim)
-        zt = 0 if (c == "AX" and not gv) else None
+        # axisymmetric value spaces: half of the cases keep the circumferential integrand component at zero (loads), the others
+        # fill it - felupe lets it act on v_r / R like the (3, 3) component of the gradient space
+        zt = 0 if (c == "AX" and not gv and case["seed"] % 2 == 0) else None
+        if c == "AX" and not gv and f != "Bvv":
+            rec.label("hoop-component:" + ("zero" if zt == 0 else "non-zero"))
         if f.startswith("L"):
             fun = integrand(rng, tv, nq, nc, bcm, zero_theta=zt)
             form = fem.IntegralForm([fun], fc, dV, grad_v=[gv])
@@ -172,7 +176,7 @@ def check(ax, case, rec):
             tu = tshape(v0, gu, d3, mdim)
             if c == "AX" and f == "Bvv":
                 tv = tu = (2,)  # value-value forms of axisymmetric fields act on the in-plane components (mass matrix)
-            fun = integrand(rng, tv + tu, nq, nc, bcm, zero_theta=0 if (c == "AX" and not gv and f != "Bvv") else None)
+            fun = integrand(rng, tv + tu, nq, nc, bcm, zero_theta=zt if f != "Bvv" else None)
             form = fem.IntegralForm([fun], fc, dV, fc, grad_v=[gv], grad_u=[gu])
             got = dense(form.assemble(parallel=par))
             ref = ra.bilinear(fun, v0, v0, dV, gv, gu)
@@ -309,6 +313,17 @@ def ex_strategy(name, tier):
                                   "seed": st.integers(0, 2**32 - 1), "parallel": st.booleans(), "sym": st.booleans()})
 
 
+def other_fields(fem, mesh, info, rng, planestrain):
+    """a field container on a second region: same cells, points mapped by a random affine map (det > 0)."""
+    dim = info["dim"]
+    B = np.eye(dim) + rng.uniform(-0.25, 0.25, (dim, dim))
+    m2 = mesh.copy()
+    m2.update(points=np.asarray(mesh.points) @ B.T)
+    r2 = gm.region(m2, info)
+    f2 = fem.FieldPlaneStrain(r2, dim=2) if planestrain else fem.Field(r2, dim=dim)
+    return fem.FieldContainer([f2]), r2
+
+
 def ex_check(name, case, rec):
     fem = import_felupe()
     from felupe.math import ddot, dot, grad
@@ -343,6 +358,11 @@ def ex_check(name, case, rec):
 
         K = fem.IntegralForm([A], fc, region.dV, fc).assemble()
         cmp(name + ("(sym=True)" if use_sym else ""), wf.assemble(fc, fc, parallel=par, sym=use_sym), K)
+        # the same form object handed other fields (same topology, sheared and stretched points): "may be updated during
+        # integration / assembly"
+        fc2, region2 = other_fields(fem, mesh, info, rng, ps)
+        K2 = fem.IntegralForm([A], fc2, region2.dV, fc2).assemble()
+        cmp(name + "@other-fields", wf.assemble(v=fc2, u=fc2, parallel=par, sym=use_sym), K2)
     elif name == "bilinear-hh":
         # second gradients of the basis (regions created with hess=True): a(v, u) = w hess(v) ::: hess(u), against the explicit
         # sum over cells, quadrature points and shape functions built from the region's d2h/dXdX
@@ -401,6 +421,9 @@ def ex_check(name, case, rec):
 
             L = fem.IntegralForm([P], fc, region.dV, grad_v=[False]).assemble()
         cmp(name, lf.assemble(fc, parallel=par), L)
+        fc2, region2 = other_fields(fem, mesh, info, rng, False)
+        L2 = fem.IntegralForm([P], fc2, region2.dV, grad_v=[name == "linear-g"]).assemble()
+        cmp(name + "@other-fields", lf.assemble(v=fc2, parallel=par), L2)
     else:
         fm = fem.FieldsMixed(region, n=2)
         F = rng.standard_normal((dim, dim, nq, nc))
